@@ -42,4 +42,23 @@ func newIDs
   ensures result != nil && fresh(ifptr(result, "*ids")) && ifptr(result, "*ids").values != nil
   ensures forall k int :: !mapHasKey(ifptr(result, "*ids").values, k)
   modifies nothing
+
+// ======== line discipline of the block parsers (C08) ========
+// "Open/Continue must not parse beyond the current line" (parser.go, BlockParser): every built-in Open and
+// Continue returns with the reader on the line it was called on, cursor model intact.
+macro lineKept(reader) = text.rdOK(reader) && text.rdLine(reader) == old(text.rdLine(reader))
+
+// Lines() is for block nodes only (BaseInline.Lines panics); block nodes allocate the list on demand
+ghost isBlockNode(n addr) bool
+iface ast.Node.Lines
+  requires isBlockNode(recv)
+  ensures result != nil
+  modifies nothing
+
+func (*paragraphParser).Open
+  requires text.rdOK(reader) && text.rdLive(reader)
+  ensures [line] lineKept(reader)
+func (*paragraphParser).Continue
+  requires text.rdOK(reader) && text.rdLive(reader) && isBlockNode(node)
+  ensures [line] lineKept(reader)
 @*/
